@@ -205,8 +205,8 @@ MinCost(name, lab) ==
 RECURSIVE LeafFix(_, _, _)
 LeafFix(lab, mem, s) ==
   LET s2 == TLCEval([L \in DOMAIN mem |->
-               UNION {IF chidx[i] = << >> THEN {us[i].op}
-                      ELSE UNION {s[lab[chidx[i][k]]] : k \in DOMAIN chidx[i]} : i \in mem[L]}])
+               UNION {IF chidx[i] = << >> THEN LeafDatum(us[i].op)
+                      ELSE NodeDatum(UNION {s[lab[chidx[i][k]]] : k \in DOMAIN chidx[i]}) : i \in mem[L]}])
   IN IF s2 = s THEN s ELSE LeafFix(lab, mem, s2)
 LeafOps(lab) == LET mem == Members(lab) IN LeafFix(lab, mem, [L \in DOMAIN mem |-> {}])
 
